@@ -2,12 +2,12 @@
 Executable model of the converters of `utype/utils/transform.py` (`TypeTransformer`), branch for branch,
 including the branches that are wrong.  Shared by C12 (this file's owner), C01 and C04.
 
-  * `_attempt_from`            transform.py:144-160      `attemptFrom`
-  * `_from_byte_like`          :162-167                  `fromByteLike`
-  * `_attempt_from_number`     :169-182                  `attemptFromNumber`
-  * `to_null … to_enum`        :196-690                  `toNull … toEnum`
-  * `handle_unresolved`        :713-721                  `handleUnresolved`
-  * `apply` / `__call__`       :723-746                  `apply` / `transform`
+  * `_attempt_from`            transform.py:144-162      `attemptFrom`
+  * `_from_byte_like`          :164-169                  `fromByteLike`
+  * `_attempt_from_number`     :171-184                  `attemptFromNumber`
+  * `to_null … to_enum`        :198-692                  `toNull … toEnum`
+  * `handle_unresolved`        :715-723                  `handleUnresolved`
+  * `apply` / `__call__`       :725-748                  `apply` / `transform`
 
 Values (`V`) carry their class (a builtin `Base` and a user-subclass tag); an `Outcome` keeps apart
 `ok`, `perr` (a TypeError/ValueError raised by the converter — callers such as `Rule.parse` wrap these into
@@ -514,7 +514,7 @@ def iterOf : V → Outcome (List V)
   | .dict _ kvs => .ok (kvs.map (·.1))
   | _ => .perr .typeError
 
-/-- the loop `for item in data: key, val = item; result[key] = val` (transform.py:326-335); with
+/-- the loop `for item in data: key, val = item; result[key] = val` (transform.py:328-337); with
 `rejectMapping` the no_data_loss variant that raises on mapping items.  `dict(iterable)` accepts exactly
 the same items. -/
 def pairsOf (rejectMapping : Bool) : List V → List (V × V) → Outcome (List (V × V))
@@ -546,7 +546,7 @@ def Env.enumValue (E : Env) (k i : Nat) : Outcome V :=
     | Option.none => .unmodelled "no such enum member"
   | Option.none => .unmodelled "no such enum"
 
-/-- transform.py:144-160 -/
+/-- transform.py:144-162 -/
 def attemptFrom (E : Env) (f : Flags) (v : V) : Outcome V :=
   if f.nec then .ok v else
   match v with
@@ -555,7 +555,7 @@ def attemptFrom (E : Env) (f : Flags) (v : V) : Outcome V :=
       if f.ndl && xs.length > 1 then .perr .typeError
       else if k.isSet && xs.length > 1 then .unmodelled "first element of a set"
       else match xs with
-        | x :: _ => .ok x
+        | x :: _ => .ok x                      -- `next(iter(value))` (ea05768; was `list(value)[0]`)
         | [] => .ok v
     else .ok v
   | .enum k i => E.enumValue k i
@@ -569,7 +569,7 @@ def decodeB (P : Prims) (strict : Bool) (bs : List UInt8) : Outcome String :=
 def jsonLoadsS (P : Prims) (strict : Bool) (s : String) : Outcome V :=
   if s == "" then .perr .jsonDecode else P.jsonLoads strict s
 
-/-- transform.py:162-167 -/
+/-- transform.py:164-169 -/
 def fromByteLike (P : Prims) (f : Flags) (v : V) : Outcome V :=
   match v with
   | .bytes _ _ bs => do
@@ -577,7 +577,7 @@ def fromByteLike (P : Prims) (f : Flags) (v : V) : Outcome V :=
     pure (.str 0 s)
   | _ => .ok v
 
-/-- transform.py:169-182 -/
+/-- transform.py:171-184 -/
 def attemptFromNumber (P : Prims) (E : Env) (f : Flags) (v : V) : Outcome V := do
   let d ← attemptFrom E f v
   let d ← fromByteLike P f d
@@ -633,7 +633,7 @@ def decOfFloatExact : FloatV → DecV
 def decOfStr (P : Prims) (s : String) : Outcome DecV :=
   if s == "" then .escape .invalidOperation else P.decOfStr s
 
-/-- `Decimal(data)` (to_integer, transform.py:434-437); `InvalidOperation` is still an escape here -/
+/-- `Decimal(data)` (to_integer, transform.py:436-439); `InvalidOperation` is still an escape here -/
 def decimalOf (P : Prims) (d : V) : Outcome DecV :=
   match d with
   | .bool b => .ok (.fin false (if b then 1 else 0) 0)
@@ -682,7 +682,7 @@ def decViaStr (P : Prims) (d : V) : Outcome DecV :=
 /-! ## the converters -/
 
 open Utv.Gen.Tables in
-/-- `to_null` transform.py:196-206 -/
+/-- `to_null` transform.py:198-208 -/
 def toNull (f : Flags) (v : V) : Outcome V :=
   match v with
   | .none => .ok .none
@@ -691,7 +691,7 @@ def toNull (f : Flags) (v : V) : Outcome V :=
     else if NULL_VALUES.contains (pyLower s) then .ok .none else .perr .typeError
   | _ => .perr .typeError
 
-/-- `to_str` :230-237 -/
+/-- `to_str` :232-239 -/
 def toStr (P : Prims) (E : Env) (f : Flags) (c : Nat) (v : V) : Outcome V :=
   match v with
   | .str _ s => .ok (.str c s)
@@ -702,7 +702,7 @@ def toStr (P : Prims) (E : Env) (f : Flags) (c : Nat) (v : V) : Outcome V :=
     let s ← pyStr P d
     pure (.str c s)
 
-/-- `to_bytes` :239-254 -/
+/-- `to_bytes` :241-256 -/
 def toBytes (P : Prims) (E : Env) (f : Flags) (b : BytesK) (c : Nat) (v : V) : Outcome V := do
   let d ← attemptFrom E f v
   match d with
@@ -713,7 +713,7 @@ def toBytes (P : Prims) (E : Env) (f : Flags) (b : BytesK) (c : Nat) (v : V) : O
     let s ← pyStr P d
     pure (.bytes b c s.toUTF8.toList)
 
-/-- the tail of `to_array_types` after the string guesses (:299-309) -/
+/-- the tail of `to_array_types` after the string guesses (:301-311) -/
 def arrayTail (f : Flags) (b : SeqK) (c : Nat) (d : V) : Outcome V :=
   match d with
   | .dict _ kvs =>
@@ -742,7 +742,7 @@ def constructFrom (b : SeqK) (c : Nat) (v : V) : Outcome V :=
     then .unmodelled "iteration order of a set" else construct b c xs
   | _ => .unmodelled "construct from a non-sequence"
 
-/-- the string guesses of `to_array_types` (:269-294) -/
+/-- the string guesses of `to_array_types` (:271-296) -/
 def arrayOfString (P : Prims) (f : Flags) (b : SeqK) (c : Nat) (s0 : String) : Outcome V :=
   let s := pyStrip s0
   if bracketed s then
@@ -762,7 +762,7 @@ def arrayOfString (P : Prims) (f : Flags) (b : SeqK) (c : Nat) (s0 : String) : O
     | some parts => construct b c parts
     | Option.none => arrayTail f b c (.str 0 s)
 
-/-- `to_array_types` :256-310 -/
+/-- `to_array_types` :258-312 -/
 def toArray (P : Prims) (f : Flags) (b : SeqK) (c : Nat) (v : V) : Outcome V :=
   if isInstT v (.cls b.base c) then .ok v else
   if multi v then constructFrom b c v else
@@ -772,11 +772,11 @@ def toArray (P : Prims) (f : Flags) (b : SeqK) (c : Nat) (v : V) : Outcome V :=
     | .str _ s0 => arrayOfString P f b c s0
     | _ => arrayTail f b c d
 
-/-- `to_iter_types` :209-218 for the abstract classes (`t` stays abstract: the list result is returned) -/
+/-- `to_iter_types` :211-220 for the abstract classes (`t` stays abstract: the list result is returned) -/
 def toIter (P : Prims) (f : Flags) (a : Abc) (v : V) : Outcome V :=
   if isInstAbc v a then .ok v else toArray P f .list 0 v
 
-/-- cookie / comma syntax of `to_dict` (:382-389) -/
+/-- cookie / comma syntax of `to_dict` (:384-391) -/
 def cookieDict (s : String) : List (V × V) :=
   let spliter : Char := if s.toList.contains ';' then ';' else ','
   (splitOnChar spliter s.toList).foldl (fun acc value =>
@@ -793,7 +793,7 @@ def qsDict : V → Outcome (List (V × V))
       | _ => (k, v))
   | _ => .unmodelled "parse_qs result"
 
-/-- the string branch of `to_dict` (:359-390) -/
+/-- the string branch of `to_dict` (:361-392) -/
 def dictOfString (P : Prims) (E : Env) (f : Flags) (c : Nat) (s0 : String) : Outcome V :=
   match jsonLoadsS P f.ndl s0 with
   | .ok j => do let kvs ← dictOf j; pure (.dict c kvs)
@@ -817,7 +817,7 @@ def dictOfString (P : Prims) (E : Env) (f : Flags) (c : Nat) (s0 : String) : Out
   | .diverge => .diverge
   | .unmodelled w => .unmodelled w
 
-/-- everything of `to_dict` after the pair attempts (:357-397) -/
+/-- everything of `to_dict` after the pair attempts (:359-399) -/
 def dictRest (P : Prims) (E : Env) (f : Flags) (c : Nat) (v : V) : Outcome V := do
   let d ← attemptFrom E f v
   let d ← fromByteLike P f d
@@ -830,7 +830,7 @@ def itemsOf : V → List V
   | .seq _ _ xs => xs
   | _ => []
 
-/-- `to_dict` :312-397 (with fix C12-dict-pairs: `multi(data)` in the no_data_loss branch and no pair
+/-- `to_dict` :314-399 (with fix C12-dict-pairs: `multi(data)` in the no_data_loss branch and no pair
 reading of collections that hold mappings in the lenient branch) -/
 def toDict (P : Prims) (E : Env) (f : Flags) (c : Nat) (v : V) : Outcome V :=
   if isInstT v (.cls .dict c) then .ok v else
@@ -856,11 +856,11 @@ def toDict (P : Prims) (E : Env) (f : Flags) (c : Nat) (v : V) : Outcome V :=
       | .diverge => .diverge
       | .unmodelled w => .unmodelled w
 
-/-- `to_mapping` :220-228 for the abstract class -/
+/-- `to_mapping` :222-230 for the abstract class -/
 def toMapping (P : Prims) (E : Env) (f : Flags) (v : V) : Outcome V :=
   if isInstAbc v .mapping then .ok v else toDict P E f 0 v
 
-/-- `to_float` :399-411 -/
+/-- `to_float` :401-413 -/
 def toFloat (P : Prims) (E : Env) (f : Flags) (c : Nat) (v : V) : Outcome V :=
   match v with
   | .float _ x => .ok (.float c (normZ x))
@@ -876,7 +876,7 @@ def decFinExp0 : DecV → Bool
   | .fin _ _ e => e == 0
   | _ => false
 
-/-- the tail of `to_integer` (:434-447): `Decimal(data)` (InvalidOperation → TypeError), the no_data_loss
+/-- the tail of `to_integer` (:436-449): `Decimal(data)` (InvalidOperation → TypeError), the no_data_loss
 checks, `t(data)` -/
 def intFinish (P : Prims) (f : Flags) (c : Nat) (d : V) : Outcome V :=
   match decimalOf P d with
@@ -891,7 +891,7 @@ def intFinish (P : Prims) (f : Flags) (c : Nat) (d : V) : Outcome V :=
   | .unmodelled w => .unmodelled w
 
 open Utv.Gen.Tables in
-/-- `to_integer` after `_attempt_from_number` (:426-432): the word tables (plain `0` / `1`, whatever `t` is),
+/-- `to_integer` after `_attempt_from_number` (:428-434): the word tables (plain `0` / `1`, whatever `t` is),
 the `isinstance(data, t)` shortcut -/
 def intAfter (P : Prims) (f : Flags) (c : Nat) (d : V) : Outcome V :=
   match d with
@@ -901,7 +901,7 @@ def intAfter (P : Prims) (f : Flags) (c : Nat) (d : V) : Outcome V :=
     else intFinish P f c d
   | _ => if isInstT d (.cls .int c) then .ok d else intFinish P f c d
 
-/-- `to_integer` :412-447 -/
+/-- `to_integer` :414-449 -/
 def toInteger (P : Prims) (E : Env) (f : Flags) (c : Nat) (v : V) : Outcome V :=
   match v with
   | .bool b => .ok (.int c (if b then 1 else 0))
@@ -913,7 +913,7 @@ def toInteger (P : Prims) (E : Env) (f : Flags) (c : Nat) (v : V) : Outcome V :=
       let d ← attemptFromNumber P E f v
       intAfter P f c d
 
-/-- `to_decimal` :448-461 -/
+/-- `to_decimal` :450-463 -/
 def toDecimal (P : Prims) (E : Env) (f : Flags) (c : Nat) (v : V) : Outcome V :=
   match v with
   | .dec _ x => .ok (.dec c x)
@@ -937,7 +937,7 @@ def complexOf (P : Prims) (d : V) : Outcome V :=
   | .str _ s => if s == "" then .perr .valueError else P.complexOf d
   | _ => P.complexOf d
 
-/-- `to_complex` :462-478 -/
+/-- `to_complex` :464-480 -/
 def toComplex (P : Prims) (E : Env) (f : Flags) (c : Nat) (v : V) : Outcome V :=
   if isInstT v (.cls .complex c) then .ok v else
   if f.nec then do
@@ -951,7 +951,7 @@ def toComplex (P : Prims) (E : Env) (f : Flags) (c : Nat) (v : V) : Outcome V :=
       let d ← attemptFromNumber P E f v
       complexOf P d
 
-/-- `data == n` for `n ∈ {0, 1}` (to_bool :484-487); a signalling Decimal NaN raises InvalidOperation -/
+/-- `data == n` for `n ∈ {0, 1}` (to_bool :486-489); a signalling Decimal NaN raises InvalidOperation -/
 def eqSmall (v : V) (n : Int) : Outcome Bool :=
   match v with
   | .dec _ (.nan true) => .escape .invalidOperation
@@ -962,7 +962,7 @@ def eqSmall (v : V) (n : Int) : Outcome Bool :=
     | Option.none => .ok false
 
 open Utv.Gen.Tables in
-/-- `to_bool` :479-501 -/
+/-- `to_bool` :481-503 -/
 def toBool (P : Prims) (f : Flags) (v : V) : Outcome V :=
   match v with
   | .bool b => .ok (.bool b)
@@ -1005,7 +1005,7 @@ def isInfinite : V → Bool
   | .dec _ (.inf _) => true
   | _ => false
 
-/-- `while abs(data) > MS_WATERSHED: data /= 1000` (transform.py:531-532, 564-565).  On ±inf the loop
+/-- `while abs(data) > MS_WATERSHED: data /= 1000` (transform.py:533-534, 564-565).  On ±inf the loop
 never ends (`inf / 1000 = inf`): `diverge` (no longer reachable from `to_datetime`, which now rejects
 non-finite values before the loop; kept because it is what the loop itself does).  `fuel` bounds the
 iterations on finite values. -/
@@ -1056,7 +1056,7 @@ def isFiniteTs (P : Prims) (x : V) : Outcome Bool :=
   | .dec _ d => do let f ← floatOfDec P d; pure (fin f)
   | _ => .perr .typeError
 
-/-- the timestamp branch of `to_datetime` (:528-533, :574-578): non-finite values raise ValueError (fix 8de0bd0:
+/-- the timestamp branch of `to_datetime` (:530-535, :576-580): non-finite values raise ValueError (fix 8de0bd0:
 before it the loop below never ended on ±inf), then the watershed loop, then `utcfromtimestamp` -/
 def timestampResult (P : Prims) (c : Nat) (x : V) : Outcome V := do
   if !(← isFiniteTs P x) then .perr .valueError else do
@@ -1064,7 +1064,7 @@ def timestampResult (P : Prims) (c : Nat) (x : V) : Outcome V := do
   let r ← P.utcFromTs y
   pure (retag c r)
 
-/-- `to_datetime` :519-580.  `toFloatStr` is `self.to_float(data, float)` on the cleaned string. -/
+/-- `to_datetime` :521-582.  `toFloatStr` is `self.to_float(data, float)` on the cleaned string. -/
 def toDatetime (P : Prims) (E : Env) (f : Flags) (c : Nat) (dateFirst : Bool) (v : V) : Outcome V :=
   if isInstT v (.cls .datetime c) then .ok v else
   match v with
@@ -1102,7 +1102,7 @@ def toDatetime (P : Prims) (E : Env) (f : Flags) (c : Nat) (dateFirst : Bool) (v
 
 def midnight (t : TimeV) : Bool := t.hh == 0 && t.mi == 0 && t.ss == 0 && t.us == 0
 
-/-- `to_date` :502-517 (registered with allow_subclasses=False: only `date` itself) -/
+/-- `to_date` :504-519 (registered with allow_subclasses=False: only `date` itself) -/
 def toDate (P : Prims) (E : Env) (f : Flags) (v : V) : Outcome V :=
   match v with
   | .datetime _ d _ => if f.ndl then .perr .valueError else .ok (.date 0 d)
@@ -1114,7 +1114,7 @@ def toDate (P : Prims) (E : Env) (f : Flags) (v : V) : Outcome V :=
       if f.ndl && !midnight t then .perr .valueError else pure (.date 0 d)
     | _ => .unmodelled "to_datetime returned a non-datetime"
 
-/-- `kw` handling of `to_timedelta` :600-612 -/
+/-- `kw` handling of `to_timedelta` :602-614 -/
 def durationKw (P : Prims) (_c : Nat) (kw : List (String × Option String)) : Outcome V := do
   let sign : Int := if kw.lookup "sign" == some (some "-") then -1 else 1
   let kw := kw.filter (fun p => p.1 != "sign")
@@ -1145,7 +1145,7 @@ def durationRegs (P : Prims) (c : Nat) (s : String) : List Nat → Outcome (Opti
     | some kw => do let r ← durationKw P c kw; pure (some r)
     | Option.none => durationRegs P c s rest
 
-/-- `to_timedelta` :582-622 -/
+/-- `to_timedelta` :584-624 -/
 def toTimedelta (P : Prims) (E : Env) (f : Flags) (c : Nat) (v : V) : Outcome V :=
   if isInstT v (.cls .timedelta c) then .ok v else do
   let d ← attemptFrom E f v
@@ -1173,7 +1173,7 @@ def toTimedelta (P : Prims) (E : Env) (f : Flags) (c : Nat) (v : V) : Outcome V 
   | .diverge => .diverge
   | .unmodelled w => .unmodelled w
 
-/-- `to_time` :624-641 -/
+/-- `to_time` :626-643 -/
 def toTime (P : Prims) (E : Env) (f : Flags) (c : Nat) (v : V) : Outcome V :=
   if isInstT v (.cls .time c) then .ok v else do
   let d ← attemptFrom E f v
@@ -1205,7 +1205,7 @@ def toTime (P : Prims) (E : Env) (f : Flags) (c : Nat) (v : V) : Outcome V :=
 
 def bytesToNat (bs : List UInt8) : Nat := bs.foldl (fun acc b => acc * 256 + b.toNat) 0
 
-/-- `to_uuid` :643-666 -/
+/-- `to_uuid` :645-668 -/
 def toUuid (P : Prims) (f : Flags) (c : Nat) (v : V) : Outcome V :=
   if isInstT v (.cls .uuid c) then .ok v else
   match v with
@@ -1287,7 +1287,7 @@ def enumNameFallback (E : Env) (f : Flags) (k : Nat) (v : V) (o : Outcome V) : O
     else o
   | _ => o
 
-/-- `to_enum` :670-689 (with fix C12-enum-value-first: member names are a lenient fallback after the value
+/-- `to_enum` :672-691 (with fix C12-enum-value-first: member names are a lenient fallback after the value
 lookup, so a name never shadows another member's value) -/
 def toEnum (P : Prims) (E : Env) (f : Flags) (k : Nat) (v : V) : Outcome V :=
   match v with
@@ -1313,7 +1313,7 @@ inductive Conv where
   deriving DecidableEq, Repr
 
 /-- `TypeTransformer.registry.resolve(t)` for the classes of `Target` (registration order and
-`allow_subclasses` flags of transform.py:196-670; `to_null` and `to_date` do not take subclasses;
+`allow_subclasses` flags of transform.py:198-672; `to_null` and `to_date` do not take subclasses;
 `to_bool` is registered after `to_integer`, `to_enum` last) -/
 def resolve : Target → Option Conv
   | .cls .noneType 0 => some .null
@@ -1369,7 +1369,7 @@ def runConv (P : Prims) (E : Env) (f : Flags) (t : Target) (v : V) : Conv → Ou
   | .iter => (match t with | .abc a => toIter P f a v | _ => .unmodelled "target")
   | .mapping => toMapping P E f v
 
-/-- `handle_unresolved` :713-721 (`TypeMismatchError` is a TypeError) -/
+/-- `handle_unresolved` :715-723 (`TypeMismatchError` is a TypeError) -/
 def handleUnresolved (P : Prims) (u : Unresolved) (t : Target) (v : V) : Outcome V :=
   if isInstT v t then .ok v else
   match u with
@@ -1386,7 +1386,7 @@ def modelledInput (E : Env) (t : Target) : V → Bool
     | Option.none => false
   | _ => true
 
-/-- `TypeTransformer.__call__` :735-746 (targets are classes: the ForwardRef branch is not reachable) -/
+/-- `TypeTransformer.__call__` :737-748 (targets are classes: the ForwardRef branch is not reachable) -/
 def transformU (P : Prims) (E : Env) (f : Flags) (u : Unresolved) (t : Target) (v : V) : Outcome V :=
   if typeEq v t then .ok v else
   if !modelledInput E t v then .unmodelled "member of a mixed-in enum as input" else
@@ -1397,7 +1397,7 @@ def transformU (P : Prims) (E : Env) (f : Flags) (u : Unresolved) (t : Target) (
 def transform (P : Prims) (E : Env) (f : Flags) (t : Target) (v : V) : Outcome V :=
   transformU P E f .throw t v
 
-/-- `TypeTransformer.apply` :723-733: with a resolved `func` the exact-type shortcut, then the function -/
+/-- `TypeTransformer.apply` :725-735: with a resolved `func` the exact-type shortcut, then the function -/
 def apply (P : Prims) (E : Env) (f : Flags) (u : Unresolved) (t : Target) (func : Option Conv) (v : V) : Outcome V :=
   match func with
   | Option.none => transformU P E f u t v
